@@ -127,8 +127,11 @@ func (s *Session) OnEvent(event Event) {
 						case s.failed <- err:
 						default:
 						}
+					} else {
+						// Don't keep a nil pool around: the session stays registered as a cluster listener even when it
+						// failed to connect, and a later add/remove event for this host would dereference it.
+						s.pools.Store(host.Key(), pool)
 					}
-					s.pools.Store(host.Key(), pool)
 					wg.Done()
 				}(host)
 			}
